@@ -70,10 +70,12 @@ class Generic(object):
 
     @staticmethod
     def disable(anchor):
-        pfctl('-a %s -F all' % anchor)
-        if _pf_context['started_by_sshuttle'] == 1:
-            pfctl('-d')
-        _pf_context['started_by_sshuttle'] -= 1
+        try:
+            pfctl('-a %s -F all' % anchor)
+        finally:
+            if _pf_context['started_by_sshuttle'] == 1:
+                pfctl('-d')
+            _pf_context['started_by_sshuttle'] -= 1
 
     def query_nat(self, family, proto, src_ip, src_port, dst_ip, dst_port):
         [proto, family, src_port, dst_port] = [
@@ -346,9 +348,11 @@ class Darwin(FreeBsd):
         _pf_context['Xtoken'].append(re.search(b'Token : (.+)', o[1]).group(1))
 
     def disable(self, anchor):
-        pfctl('-a %s -F all' % anchor)
-        if _pf_context['Xtoken']:
-            pfctl('-X %s' % _pf_context['Xtoken'].pop().decode("ASCII"))
+        try:
+            pfctl('-a %s -F all' % anchor)
+        finally:
+            if _pf_context['Xtoken']:
+                pfctl('-X %s' % _pf_context['Xtoken'].pop().decode("ASCII"))
 
     def add_anchors(self, anchor):
         # before adding anchors and rules we must override the skip lo
